@@ -488,8 +488,10 @@ class LintScript(ModelFn):
                 out = []
                 for name in names:
                     if not L.has(name):
-                        out.append((f'C18.{name}-exists-at-the-head-of-its-scope', z3.BoolVal(False)))
-                        continue
+                        # the contract is anchored to this local: without it the clause cannot be stated (undecided, not a
+                        # violation — a renamed local is not a defect)
+                        from pyvc.interp import OutOfReach
+                        raise OutOfReach(f'lint_script: the local `{name}` the label-bookkeeping contract is anchored to does not exist')
                     d = L.term(name)
                     out.append((f'C18.{name}-is-empty-at-the-head-of-its-scope',
                                 z3.And(is_dict(d), h.dnk(V.dref(d)) == 0, z3.ForAll([k], z3.Not(h.dhas(V.dref(d), k))))))
